@@ -456,7 +456,11 @@ func c04(args []string) int {
 			if err := json.Unmarshal(raw, &j); err != nil {
 				return c04Res{Err: err.Error()}
 			}
-			return c04Exec(j)
+			r, ok := confirm(func() c04Res { return c04Exec(j) }, func(r c04Res) bool { return r.Effect != "" || (j.Path == "check" && r.Accepted) })
+			if !ok {
+				return c04Res{Err: unstableMsg}
+			}
+			return r
 		})
 	}
 	f := explore.ParseFlags("C04", args, nil)
